@@ -26,9 +26,10 @@ package auth
 //@   ensures {C15} [readonly-refuses-writes] opts.Readonly && (opts.AclPermission == PermissionWrite || opts.AclPermission == PermissionWriteAcp) ==> err != nil
 
 // The source of a copy is the bucket and key that the backend will actually read, i.e. what
-// backend.ParseCopySource makes of the header value; some ACL of that bucket must have been consulted.
+// backend.ParseCopySource makes of the header value, judged by the ACL stored for that bucket.
+// The ACL consulted is the one stored for that source bucket (aclDoc / aclOfDoc name the stored document and its decoding).
 //@ ghost func copySourceGranted(be Iface, acc Account, isRoot bool, copySource string) bool = \
-//@     exists a ACL :: granted(be, a, acc, isRoot, backend.ParseCopySource(copySource).0, backend.ParseCopySource(copySource).1, GetObjectAction, PermissionRead)
+//@     granted(be, aclOfDoc(aclDoc(be, backend.ParseCopySource(copySource).0)), acc, isRoot, backend.ParseCopySource(copySource).0, backend.ParseCopySource(copySource).1, GetObjectAction, PermissionRead)
 
 //@ func VerifyObjectCopyAccess
 //@   ensures {C03} [destination] err == nil ==> granted(be, opts.Acl, opts.Acc, opts.IsRoot, opts.Bucket, opts.Object, opts.Action, opts.AclPermission)
